@@ -32,6 +32,18 @@ func init() {
 			}
 			return withOf(is)
 		},
+		Thorough: func() []eng.Instance {
+			var is []eng.Instance
+			for i, n := range cacheOps {
+				is = append(is, eng.Instance{Name: fmt.Sprintf("C01/Cache/step/%s", n), Pkg: "cache", Func: "VxH_C01_step", Args: []int64{int64(i)}})
+			}
+			// two-call histories from the empty cache: storing call, clock advance, any call (symbolic selector)
+			for _, first := range []int{0, 1, 6, 7, 9, 10} {
+				is = append(is, eng.Instance{Name: fmt.Sprintf("C01/Cache/hist2/%s;*", cacheOps[first]), Pkg: "cache", Func: "VxH_C01_hist2", Args: []int64{int64(first)},
+					Cfg: eng.Config{DefaultUnwind: 6, NoResize: map[int]bool{0: true, 1: true}}})
+			}
+			return withOf(is)
+		},
 	})
 }
 
@@ -135,6 +147,15 @@ func init() {
 		Quick: func() []eng.Instance {
 			return withOf(cacheOpInstances("C06/Cache/seq", "VxH_C06_seq", []string{"Delete", "GetAndDelete", "DeleteExpired"}))
 		},
+		Thorough: func() []eng.Instance {
+			is := withOf(cacheOpInstances("C06/Cache/seq", "VxH_C06_seq", []string{"Delete", "GetAndDelete", "DeleteExpired"}))
+			// concurrent removals: the ledger must be that of a linearization (second assertion of the C02 harness), 3 rounds
+			is = append(is, withOf(cachePar2R("C06/Cache/par2", [][2]string{
+				{"DeleteExpired", "DeleteExpired"}, {"DeleteExpired", "Delete"}, {"DeleteExpired", "GetAndDelete"}, {"DeleteExpired", "Set"},
+				{"GetAndDelete", "GetAndDelete"}, {"Delete", "Set"}, {"GetAndDelete", "Compute"},
+			}, 0, 3))...)
+			return is
+		},
 	})
 	register(&PropSpec{
 		ID:        "C07",
@@ -148,6 +169,19 @@ func init() {
 			}
 			is = withOf(is)
 			is = append(is, mapStepInstances("C07/Map/Range", "VxH_Map_step", []shape{{1, 1, 1, 0}, {2, 1, 1, 1}, {1, 2, 1, 1}}, []int{9})...)
+			is = append(is, mapOfStepInstances("C07/MapOf[int,int]/Range", "VxH_MapOfII_step", [][5]int{{1, 1, 1, 3, 0}}, []int{9})...)
+			return is
+		},
+		Thorough: func() []eng.Instance {
+			is := []eng.Instance{
+				{Name: "C07/Cache/Range", Pkg: "cache", Func: "VxH_C07_cacheRange", Args: []int64{0}, Cfg: eng.Config{DefaultUnwind: 6}},
+				{Name: "C07/Cache/Items", Pkg: "cache", Func: "VxH_C07_cacheRange", Args: []int64{1}, Cfg: eng.Config{DefaultUnwind: 6}},
+				{Name: "C07/Cache/RangeNil", Pkg: "cache", Func: "VxH_C07_cacheRange", Args: []int64{2}, Cfg: eng.Config{DefaultUnwind: 6}},
+			}
+			is = withOf(is)
+			is = append(is, mapStepInstances("C07/Map/Range", "VxH_Map_step", []shape{{1, 1, 1, 0}, {2, 1, 1, 1}, {1, 2, 1, 1}, {2, 2, 2, 1}}, []int{9})...)
+			is = append(is, mapOfStepInstances("C07/MapOf[int,int]/Range", "VxH_MapOfII_step", [][5]int{{1, 1, 1, 5, 0}, {2, 1, 2, 2, 2}, {1, 2, 1, 2, 0}}, []int{9})...)
+			is = append(is, mapOfStepInstances("C07/MapOf[string,any]/Range", "VxH_MapOfSA_step", [][5]int{{1, 1, 1, 3, 0}}, []int{9})...)
 			return is
 		},
 	})
